@@ -101,6 +101,17 @@ func instantiateContainers(h []contOp, kind string) (inputs []string, ok bool) {
 				inputs = append(inputs, fmt.Sprintf("del(%s[%d])", op.X, ks[len(ks)-1]))
 				keys[op.X] = append([]int{}, ks[:len(ks)-1]...)
 			}
+		case "overwrite":
+			if kind == "arr" {
+				return nil, false
+			}
+			ks := keys[op.X]
+			k := ks[0]
+			if op.Which == 2 {
+				k = ks[len(ks)-1]
+			}
+			inputs = append(inputs, fmt.Sprintf("%s = %s + {%d:%d}", op.Y, op.X, k, v))
+			keys[op.Y] = append([]int{}, ks...)
 		case "concat":
 			if kind != "arr" {
 				return nil, false
@@ -132,7 +143,7 @@ func expectedPrint(val map[string][]int, h []contOp, kind string) string {
 			for k := 1; k <= op.N; k++ {
 				keys["a"] = append(keys["a"], k)
 			}
-		case "copy", "call":
+		case "copy", "call", "overwrite":
 			keys[op.Y] = append([]int{}, keys[op.X]...)
 		case "append":
 			keys[op.Y] = append(append([]int{}, keys[op.X]...), v)
